@@ -1118,3 +1118,35 @@ func (o *vzOracles) checkConsumersCurrent(nd *vzNode, voting, committing *tmcons
 		}
 	}
 }
+
+// checkServing (C09, "stop serving"): at quiescence the node must hold every height that honest peers
+// holding more than two thirds of the power have decided and resent. Only called for runs that stayed
+// inside the fault model.
+func (o *vzOracles) checkServing(nd *vzNode, chain map[uint64]string, commitRound map[uint64]uint32, last uint64) {
+	if !o.on["C09"] {
+		return
+	}
+	o.mu.Lock()
+	defer o.mu.Unlock()
+	d := nd.disk
+	for h := o.w.cfg.initialHeight; h <= last; h++ {
+		if len(d.commits[h]) == 0 || d.fins[h] == "" {
+			w := o.w
+			w.mu.Lock()
+			cause := w.lastErr[nd.ident()]
+			w.mu.Unlock()
+			pos := "none"
+			if n := len(d.nhr); n > 0 {
+				pos = fmt.Sprint(d.nhr[n-1])
+			}
+			how := vzSkeleton(cause)
+			if n := len(d.nhr); n > 0 && d.nhr[n-1][0] == h && d.nhr[n-1][1] > uint64(commitRound[h]) {
+				// the mirror has left the round in which the network decided the height; it refuses that
+				// round's votes as too old and has no way back
+				how = "voting-round-beyond-the-decided-round"
+			}
+			o.violate("C09", "stopped-serving/"+how, "%s: nothing is left to run, the peers have decided and resent heights up to %d, but the node has not committed and finalized height %d (committed: %t, finalized: %t; position %s); last error logged: %q", nd.ident(), last, h, len(d.commits[h]) > 0, d.fins[h] != "", pos, cause)
+			return
+		}
+	}
+}
